@@ -100,7 +100,9 @@ def _leaves(tl):
 
 
 def eligible_features(tl):
-    """features that enter only as the argument of spline bases (not linear / factor / by)"""
+    """numeric features that enter only as the argument of spline bases (not linear / factor / by; a spline term declared
+    dtype='categorical' treats its feature as category codes — knots half a category beyond the data, domain-checked
+    queries — so it is not a numeric feature in the sense of the property)"""
     spl, raw = set(), set()
     for t in tl:
         if t.isintercept:
@@ -110,7 +112,7 @@ def eligible_features(tl):
     for t, s in _leaves(tl):
         if getattr(s, 'by', None) is not None:
             raw.add(int(s.by))
-        (spl if s._name == 'spline_term' else raw).add(int(s.feature))
+        (spl if (s._name == 'spline_term' and getattr(s, 'dtype', 'numerical') == 'numerical') else raw).add(int(s.feature))
     return sorted(spl - raw)
 
 
